@@ -1544,11 +1544,11 @@ def pure_stub(em, fn):
     proto = '%s %s(%s)' % (rt, nm, ', '.join(ps) or 'void')
     nk = len(keys)
     L.append('static _Bool %s_set[2]; static uint64_t %s_key[2][%d]; static %s %s_val[2]; static unsigned %s_calls;' % (nm, nm, max(nk, 1), rt, nm, nm))
-    L.append('static uint64_t %s_last_key0; static %s %s_last_ret;   /* ghost: the most recent call */' % (nm, rt, nm))
+    L.append('static uint64_t %s_last_key0; static uint64_t %s_last_key[%d]; static %s %s_last_ret;   /* ghost: the most recent call */' % (nm, nm, max(nk, 1), rt, nm))
     L.append(proto + ' {')
     L.append('  uint64_t k[%d] = {%s};' % (max(nk, 1), ', '.join(bits(t, e) for t, e in keys) or '0'))
     L.append('  %s_calls++;' % nm)
-    L.append('  %s_last_key0 = k[0];' % nm)
+    L.append('  %s_last_key0 = k[0]; for (int i = 0; i < %d; i++) %s_last_key[i] = k[i];' % (nm, max(nk, 1), nm))
     L.append('  for (int s = 0; s < 2; s++) { if (%s_set[s]) { _Bool eq = 1; for (int i = 0; i < %d; i++) eq = eq && (%s_key[s][i] == k[i]); if (eq) { %s_last_ret = %s_val[s]; return %s_val[s]; } } }' % (nm, max(nk, 1), nm, nm, nm, nm))
     L.append('  %s nd_;' % rt)
     if isinstance(f.ret, FpT):
